@@ -6,6 +6,7 @@ import StepModel.GenCxxFrame
 import StepModel.GenCxxCalls
 import StepModel.RegistryModel
 import StepModel.Accessors
+import StepModel.AccessorKinds
 import StepModel.GenCxxRulesLemmas
 import StepModel.GenCxxAgree
 import StepModel.GenCxxDedup
@@ -197,6 +198,43 @@ theorem unmangle_prettyName (n : Ident) : unmangle (prettyName n) = n := by
     underscores, where the capitalisation rule is irregular. -/
 theorem C02_mangle_injective_pretty (a b : Ident) (h : prettyName a = prettyName b) : a = b := by
   rw [← unmangle_prettyName a, ← unmangle_prettyName b, h]
+
+/-! ### the fixed buffers behind `ClassName` / `PrettyTmpName` -/
+
+/-- Tie: every identifier exp2cxx accepts (`MAX_IDENT_LEN`, regenerated from classes_wrapper.cc: a longer one is refused with a
+    diagnostic — run on the real generator by the size-boundaries stream, lengths 199 / 200 / 201) fits the static buffers of
+    `ClassName` (prefix + name < BUFSIZ) and `PrettyTmpName` (name < BUFSIZ - 1), BUFSIZ as the C library defines it. -/
+theorem C02_mangle_buffers_suffice : maxIdentLen + 4 ≤ cBufsiz ∧ maxIdentLen ≤ cBufsiz - 1 := by decide
+
+theorem className_length (t : Ident) : (className t).length ≤ t.length + 4 := by
+  cases t with
+  | nil => simp [className, sdaiPrefix]
+  | cons c cs => simp [className, sdaiPrefix]
+
+/-- `ClassName` with its buffer: for identifiers within the length exp2cxx accepts nothing is cut off, so the class names are
+    injective on them (`C02_mangle_injective_class` is about the function without the buffer). -/
+theorem C02_mangle_injective_class_bounded (a b : Ident) (ha : a.length ≤ maxIdentLen) (hb : b.length ≤ maxIdentLen)
+    (h : classNameBuf cBufsiz a = classNameBuf cBufsiz b) : a = b := by
+  have hs := C02_mangle_buffers_suffice.1
+  unfold classNameBuf at h
+  rw [List.take_of_length_le (by have := className_length a; omega),
+      List.take_of_length_le (by have := className_length b; omega)] at h
+  exact C02_mangle_injective_class a b h
+
+/-- … and the registered names (`PrettyTmpName`) likewise. -/
+theorem C02_mangle_injective_pretty_bounded (a b : Ident) (ha : a.length ≤ maxIdentLen) (hb : b.length ≤ maxIdentLen)
+    (h : prettyNameBuf cBufsiz a = prettyNameBuf cBufsiz b) : a = b := by
+  have hs := C02_mangle_buffers_suffice.2
+  unfold prettyNameBuf at h
+  rw [List.take_of_length_le (by omega), List.take_of_length_le (by omega)] at h
+  exact C02_mangle_injective_pretty a b h
+
+/-- What the length bound excludes: past the buffer two identifiers that differ only in a character that is cut off get the same
+    class name (shown with a 6-character buffer; the same with BUFSIZ for identifiers of BUFSIZ characters, which the generator
+    refuses long before). -/
+theorem C02_mangle_truncation_witness :
+    classNameBuf 6 [.letter 0, .letter 1, .letter 2] = classNameBuf 6 [.letter 0, .letter 1, .letter 3] ∧
+    prettyNameBuf 3 [.letter 0, .letter 1, .letter 2] = prettyNameBuf 3 [.letter 0, .letter 1, .letter 3] := by decide
 
 theorem digits_ne_nil (n : Nat) : digits n ≠ [] := by
   rw [digits]; split <;> simp
@@ -1006,6 +1044,51 @@ example : WF exDiamond exRank := by
 
 example : (exDiamond.entities.map (·.name)).Nodup := by decide
 
+/-- the TYPE half of `C02_mirror` is not vacuous: an enumeration, a rename chain of length two over it, a named aggregate of the
+    renamed enumeration and a select over an entity and a defined type; `trank` = how far a type is from the end of its chain -/
+def exTypes : Schema :=
+  { name := "t",
+    types := [
+      { name := "colour", body := .enum ["red", "green"] },
+      { name := "tint", body := .alias (.named "colour") },
+      { name := "shade", body := .alias (.named "tint") },
+      { name := "palette", body := .alias (.aggr .list (some (1, .inf)) true false (.named "shade")) },
+      { name := "len", body := .alias (.base .real) },
+      { name := "pick", body := .select [.entity "thing", .named "len"] } ],
+    entities := [
+      { name := "thing", attrs := [{ name := "c", type := .named "shade" }, { name := "p", type := .named "palette", optional := true },
+                                   { name := "s", type := .named "pick" }] } ] }
+
+def exTRank : String → Nat := fun n => if n == "tint" then 1 else if n == "shade" then 2 else 0
+
+example : Spec.WFT exTypes exTRank := by
+  refine ⟨?_, ?_⟩
+  · intro td hm m hb
+    simp only [exTypes, List.mem_cons, List.not_mem_nil, or_false] at hm
+    rcases hm with rfl | rfl | rfl | rfl | rfl | rfl <;> simp at hb
+    · subst hb; exact ⟨by decide, by decide⟩
+    · subst hb; exact ⟨by decide, by decide⟩
+  · intro td hm
+    simp only [exTypes, List.mem_cons, List.not_mem_nil, or_false] at hm
+    rcases hm with rfl | rfl | rfl | rfl | rfl | rfl <;> decide
+
+example : WF exTypes (fun _ => 0) := by
+  refine ⟨?_, ?_, ?_⟩
+  · intro n e h sup hs
+    have hm := findE_mem h
+    simp only [exTypes, List.mem_cons, List.not_mem_nil, or_false] at hm
+    subst hm; simp at hs
+  · intro n e h; decide
+  · intro n e h
+    have hm := findE_mem h
+    simp only [exTypes, List.mem_cons, List.not_mem_nil, or_false] at hm
+    subst hm; decide
+
+/-- what the model registers for that schema: the rename chain link by link, the aggregate's facts, the getters at the end -/
+example : (dictOf exTypes ["thing"]).types.map (fun t => (t.name, t.ft, t.ref)) =
+    [("colour", .enumeration, .null), ("tint", .ref, .named "colour"), ("shade", .ref, .named "tint"),
+     ("palette", .list, .named "shade"), ("len", .real, .base .real), ("pick", .select, .null)] := by decide
+
 end StepModel.GenCxx
 
 /-! ## the registry can be walked however its public API is used
@@ -1015,9 +1098,25 @@ depend on which read-only queries (`GetEntityCnt`, `GetFullEntCnt`, `FindEntity/
 walks of the *other* tables are interleaved with a walk. -/
 namespace StepModel.Registry
 
-/-- Read-only queries leave the registry (all three cursors included) exactly as it was. -/
+/-- Tie: none of the six query functions of `Registry` writes a walk cursor, directly or through a member function it calls
+    (regenerated from Registry.cc / Registry.h; a `GetEntityCnt` that walks the table — seeded change C02-c2 — makes this false). -/
+theorem query_functions_write_no_cursor :
+    moves "GetEntityCnt" = [] ∧ moves "GetFullEntCnt" = [] ∧ moves "ObjCreate" = [] ∧ ∀ k, moves (findFn k) = [] := by
+  refine ⟨by decide, by decide, by decide, fun k => ?_⟩
+  cases k <;> decide
+
+/-- Read-only queries leave the registry (all three cursors included) exactly as it was — because of the tie above: in the
+    model a query moves the cursors its function writes. -/
 theorem queries_pure (st : State) (o : Op) (h : o.walkKind = none) : (step st o).1 = st := by
-  cases o <;> simp [Op.walkKind] at h <;> rfl
+  obtain ⟨h1, h2, h3, h4⟩ := query_functions_write_no_cursor
+  cases o with
+  | reset k => simp [Op.walkKind] at h
+  | next k => simp [Op.walkKind] at h
+  | nextAll k => simp [Op.walkKind] at h
+  | entityCnt => show walkAll st (moves "GetEntityCnt") = st; rw [h1]; rfl
+  | fullEntCnt => show walkAll st (moves "GetFullEntCnt") = st; rw [h2]; rfl
+  | find k n => show walkAll st (moves (findFn k)) = st; rw [h4 k]; rfl
+  | objCreate n => show walkAll st (moves "ObjCreate") = st; rw [h3]; rfl
 
 def Agree (k : Kind) (a b : State) : Prop := a.list k = b.list k ∧ a.cur k = b.cur k
 
@@ -1052,10 +1151,10 @@ theorem step_other (k : Kind) (st : State) (o : Op) (h : o.walkKind ≠ some k) 
   | nextAll k' =>
     have : k' ≠ k := fun e => h (by rw [e]; rfl)
     exact ⟨setCur_list _ _ _ _, setCur_cur_ne _ _ _ _ this⟩
-  | entityCnt => exact ⟨rfl, rfl⟩
-  | fullEntCnt => exact ⟨rfl, rfl⟩
-  | find _ _ => exact ⟨rfl, rfl⟩
-  | objCreate _ => exact ⟨rfl, rfl⟩
+  | entityCnt => rw [queries_pure st _ rfl]; exact ⟨rfl, rfl⟩
+  | fullEntCnt => rw [queries_pure st _ rfl]; exact ⟨rfl, rfl⟩
+  | find _ _ => rw [queries_pure st _ rfl]; exact ⟨rfl, rfl⟩
+  | objCreate _ => rw [queries_pure st _ rfl]; exact ⟨rfl, rfl⟩
 
 theorem step_agree (k : Kind) (a b : State) (o : Op) (h : o.walkKind = some k) (hab : Agree k a b) :
     (step a o).2 = (step b o).2 ∧ Agree k (step a o).1 (step b o).1 := by
@@ -1133,8 +1232,16 @@ end StepModel.Registry
 
 namespace StepModel.GenCxx
 
+/-- Tie: the query functions of `Registry` write no walk cursor (regenerated from their bodies and the bodies of the member
+    functions they call). -/
+theorem C02_registry_query_functions_write_no_cursor :
+    Registry.moves "GetEntityCnt" = [] ∧ Registry.moves "GetFullEntCnt" = [] ∧ Registry.moves "ObjCreate" = [] ∧
+    ∀ k, Registry.moves (Registry.findFn k) = [] :=
+  Registry.query_functions_write_no_cursor
+
 /-- Read-only queries (`GetEntityCnt`, `GetFullEntCnt`, `FindEntity/FindType/FindSchema`, `ObjCreate`) leave the registry —
-    all three walk cursors included — exactly as it was. -/
+    all three walk cursors included — exactly as it was: a model lemma on top of the tie above (in the model a query moves the
+    cursors the regenerated table says its function writes). -/
 theorem C02_registry_queries_pure (st : Registry.State) (o : Registry.Op) (h : o.walkKind = none) : (Registry.step st o).1 = st :=
   Registry.queries_pure st o h
 
@@ -1168,6 +1275,65 @@ theorem C02_accessor_roundtrip {V : Type} (fresh : V) (k : AccKind) (c : Option 
       (∃ c'', getter fresh k c' = .done c'' (some (some v))) ∧
       constGetter fresh k c' = .done c' (some (some v)) := by
   cases k <;> cases c <;> exact ⟨some v, rfl, ⟨_, rfl⟩, rfl⟩
+
+/-- **Per schema and attribute**: for every attribute of every entity of a schema, the accessor template that
+    `ATTRprint_access_methods` / `INVprint_access_methods` picks for it (`accKindOf`: inverse? aggregate? else the class of its type,
+    a defined type followed through its rename chain — modelled from the C function's case analysis and checked against the real
+    classes by per-kind generated tests) stores through the mutator and reads back through both accessors.  What `put`,
+    `operator=` and `ShallowCopy` of the LIBRARY classes do (store / copy their argument) is modelled in `Accessors.lean`, not
+    verified: the theorem is about the shape of the emitted bodies (regenerated), not about clstepcore's value classes.
+    It does not say that the member is the one on the instance's attribute list — it is not for attributes inherited through a
+    non-first supertype (finding `accessor:non-principal-supertype-attribute-disconnected`). -/
+theorem C02_accessor_roundtrip_schema (s : Schema) (e : Entity) (_he : e ∈ s.entities) (a : Attr) (_ha : a ∈ e.attrs)
+    (k : AccKind) (_hk : accKindOf s a = some k) {V : Type} (fresh : V) (c : Option V) (v : V) :
+    ∃ c', setter fresh k c (some v) = .done c' none ∧
+      (∃ c'', getter fresh k c' = .done c'' (some (some v))) ∧
+      constGetter fresh k c' = .done c' (some (some v)) :=
+  C02_accessor_roundtrip fresh k c v
+
+/-- … and every attribute outside the DERIVE clause gets a template, whenever the defined types it mentions are declared and
+    renames are acyclic (`WFT`): the case analysis is total. -/
+theorem C02_accessor_kind_total {s : Schema} {trank : String → Nat} (wft : Spec.WFT s trank) (a : Attr) (hk : a.kind ≠ .derived)
+    (hdecl : ∀ n, a.type = .named n → (s.findT n).isSome = true) : (accKindOf s a).isSome = true := by
+  unfold accKindOf
+  cases hkind : a.kind with
+  | derived => exact absurd hkind hk
+  | inverse => simp only; split <;> rfl
+  | explicit =>
+    simp only
+    cases ht : a.type with
+    | base b => cases b <;> rfl
+    | entity n => rfl
+    | aggr k b u o el => rfl
+    | named n =>
+      have hex := hdecl n ht
+      have hlt : trank n < s.types.length + 1 := by
+        obtain ⟨td, htd⟩ := Option.isSome_iff_exists.1 hex
+        have hm : td ∈ s.types := List.mem_of_find?_eq_some htd
+        have hn : td.name = n := by
+          have := List.find?_some htd
+          simpa using this
+        have := wft.bound td hm
+        rw [hn] at this
+        omega
+      obtain ⟨r, hroot, hres⟩ := resolve_root wft (s.types.length + 1) n hlt hex
+      unfold kindOfTRef
+      simp only [hres]
+      have hb : ∀ m, r.body ≠ .alias (.named m) := by
+        clear hres hlt hex ht
+        induction hroot with
+        | here _ _ _ h => exact h
+        | step _ _ _ _ _ _ _ ih => exact ih
+      cases hbody : r.body with
+      | enum _ => rfl
+      | select _ => rfl
+      | alias t =>
+        simp only
+        cases t with
+        | named m => exact absurd hbody (hb m)
+        | base b => cases b <;> rfl
+        | entity _ => rfl
+        | aggr _ _ _ _ _ => rfl
 
 /-- The accessors do not change what is stored: reading (with either accessor) after a store leaves the stored value. -/
 theorem C02_accessor_read_is_pure {V : Type} (fresh : V) (k : AccKind) (c : Option V) (v : V) :
